@@ -16,6 +16,8 @@ case "$ID" in
   *) exit 0;;
 esac
 RUNS="${VERIF_FUZZ_RUNS:-20000000}"
+# the program target interprets up to 48 API calls per input: a smaller fixed budget
+[ "$ID" = C01 ] && RUNS="${VERIF_FUZZ_RUNS:-3000000}"
 export CARGO_NET_OFFLINE=true VERIF_DIR="$VERIF"
 [ "$SEED" = 0 ] && SEED=1
 rc=0
